@@ -1292,8 +1292,11 @@ func (w *world) mtuProbes(s *srv, l *lst, proto string, next func() uint64) []Pr
 	if len(up.udp) == 0 || up.mtu == nil || d == nil || d.toServer >= 0 || d.mtu == nil || !w.pathOK(s.upUDP, true, 0) {
 		return nil
 	}
-	m := *c.mtu
-	if m != *up.mtu || m > 9000 || s.mtu == nil || *s.mtu < m || *d.mtu < m {
+	m, ms := *c.mtu, *up.mtu
+	// The server's receive buffer must hold what the client may send (ms >= m). With a larger MTU on
+	// the server its padding could outgrow the client's receive buffer, so then only targets the
+	// server does not pad for are used.
+	if ms < m || ms > 9000 || s.mtu == nil || *s.mtu < ms || *d.mtu < ms {
 		return nil
 	}
 	idx := 0
@@ -1308,8 +1311,20 @@ func (w *world) mtuProbes(s *srv, l *lst, proto string, next func() uint64) []Pr
 	}
 	var ps []Probe
 	for _, t := range targets {
-		fwd, back := mtuBudget(m, len(c.ipsks), socksAddrLen(t))
+		port := "other"
+		if t == "@@E53@@" {
+			port = "53"
+		}
+		if sp := padRepr(up.f); ms > m && (sp == "PadAll" || (sp != "NoPadding" && port == "53")) {
+			continue
+		}
+		fwd, _ := mtuBudget(m, len(c.ipsks), socksAddrLen(t))
+		_, back := mtuBudget(ms, 0, 0)
+		_, backIntoClient := mtuBudget(m, 0, 0)
 		max := min(fwd, back)
+		if max > backIntoClient {
+			continue // the reply to such a payload does not fit the client's receive buffer
+		}
 		side := "both"
 		switch {
 		case fwd < back:
@@ -1317,14 +1332,13 @@ func (w *world) mtuProbes(s *srv, l *lst, proto string, next func() uint64) []Pr
 		case back < fwd:
 			side = "server"
 		}
-		port := "other"
-		if t == "@@E53@@" {
-			port = "53"
+		note := fmt.Sprintf("mtu-boundary,mtu-boundary:%s-side,mtu-boundary:port=%s,mtu-pad:client=%s,mtu-pad:server=%s,mtu-pad:port=%s/client=%s,mtu-pad:port=%s/server=%s",
+			side, port, padRepr(c.f), padRepr(up.f), port, padRepr(c.f), port, padRepr(up.f))
+		if ms > m {
+			note += ",mtu-boundary:server-mtu-larger"
 		}
 		ps = append(ps, Probe{Kind: "mtu-" + proto, Server: s.name, Addr: l.addr(), Target: t, Seed: next(), ExpectEcho: true,
-			Sizes: []int{max + 1, max - 1, max}, Expect: []int{-1, 1, 1},
-			Note: fmt.Sprintf("mtu-boundary,mtu-boundary:%s-side,mtu-boundary:port=%s,mtu-pad:client=%s,mtu-pad:server=%s,mtu-pad:port=%s/client=%s,mtu-pad:port=%s/server=%s",
-				side, port, padRepr(c.f), padRepr(up.f), port, padRepr(c.f), port, padRepr(up.f))})
+			Sizes: []int{max + 1, max - 1, max}, Expect: []int{-1, 1, 1}, Note: note})
 	}
 	return ps
 }
